@@ -630,7 +630,7 @@ class FnTranslator:
             if b not in blocks or b in done: continue
             if b in s.loops and b != cur_header:
                 lb = s.loops[b] & blocks
-                fname = san(s.fn.name); hl = s.blabel(b)
+                fname = s.opts.get('_short', {}).get(s.fn.name, san(s.fn.name)); hl = s.blabel(b)
                 out.append('L_%s_pre: ;' % hl)
                 out.append(ind + 'while (1)')
                 asg = set().union(*[s.assigned[x] for x in lb]) | set().union(*[s.mentions[x] for x in lb])
@@ -950,6 +950,7 @@ def resolve_alias(em, m, spec):
 def translate(path, cfg):
     roots = cfg['roots']; stubs = set(cfg.get('stubs', [])); opts = cfg.get('opts') or {}
     verb = [re.compile(x) for x in cfg.get('verbatim', [])]
+    opts = dict(opts); opts['_short'] = {mangled: name for name, mangled in (cfg.get('names') or {}).items()}
     m = parse_module(path)
     dbg = DebugInfo(m.meta)
     em = Emitter(m)
@@ -1025,6 +1026,10 @@ def translate(path, cfg):
     aliases = []
     for name, spec in (cfg.get('aliases') or {}).items():
         aliases.append('#define %s %s' % (name, resolve_alias(em, m, spec)))
+    short = {}
+    for name, mangled in (cfg.get('names') or {}).items():
+        short[mangled] = name
+        aliases.append('#define %s %s' % (name, san(mangled)))
     em.flush_pending()
     out = [PRELUDE]
     out += em.fwd
@@ -1040,13 +1045,16 @@ def translate(path, cfg):
         floc = dbg.loc(m.funcs[f].dbg) if m.funcs[f].dbg else (None, 0)
         out.append('\n/* %s  @%s:%s */' % (f, floc[0], floc[1]))
         out.append(hdr)
-        out.append('#ifdef CONTRACT_%s\nCONTRACT_%s\n#endif' % (san(f), san(f)))
+        cn = short.get(f, san(f))
+        out.append('#ifndef STUB_%s   /* a harness may replace this body by the function\'s contract stub */' % cn)
+        out.append('#ifdef CONTRACT_%s\nCONTRACT_%s\n#endif' % (cn, cn))
         out.append('{')
         out += decls
         out += body
         out.append('}')
+        out.append('#else\n;\n#endif')
         info['functions'].append({'name': f, 'file': floc[0], 'line': floc[1], 'throws': ft.throws,
-                                  'loops': [{'header': h, 'macro': 'LOOP_%s__%s' % (san(f), ft.blabel(h)), 'line': ft.loop_lines.get(h)} for h in ft.loops]})
+                                  'loops': [{'header': h, 'macro': 'LOOP_%s__%s' % (cn, ft.blabel(h)), 'line': ft.loop_lines.get(h)} for h in ft.loops]})
     info['stubs_used'] = [f for f in protos]
     return '\n'.join(out) + '\n', info
 
